@@ -92,9 +92,10 @@ def evaluate(name, props, tier, budget, repo='/repo'):
         sh(['git', '-C', repo, 'checkout', '--', '.'])
         return 2
     res = meta.setdefault('evaluation', {})
+    rep = '/tmp/verif-replays-%d' % os.getpid()     # private: evaluations may run side by side
     try:
         for p in props:
-            env = dict(os.environ)
+            env = dict(os.environ, VERIF_REPLAYS=rep)
             if repo != '/repo':
                 env['VERIF_REPO'] = repo
             if budget:
@@ -110,9 +111,7 @@ def evaluate(name, props, tier, budget, repo='/repo'):
                 print(o[-1500:])
     finally:
         sh(['git', '-C', repo, 'checkout', '--', '.'])
-        rep = os.path.join(VERIF, 'replays')
-        for f in os.listdir(rep) if os.path.isdir(rep) else []:
-            os.remove(os.path.join(rep, f))
+        shutil.rmtree(rep, ignore_errors=True)
     json.dump(meta, open(os.path.join(dst, 'meta.json'), 'w'), indent=1)
     return 0
 
